@@ -40,6 +40,8 @@ def one(sid, tier, owner_only):
         "verif_commit": subprocess.run("git -C %s rev-parse --short HEAD" % VERIF, shell=True, stdout=subprocess.PIPE, text=True).stdout.strip(),
         "repo_head": subprocess.run("git -C /repo rev-parse --short HEAD", shell=True, stdout=subprocess.PIPE, text=True).stdout.strip(),
     }
+    if not owner_only:
+        meta["all_checks_run"] = {"fired": fired, "verif_commit": meta["checks_run"]["verif_commit"], "tier": tier}
     meta["caught_by_owner"] = prop in fired
     wr = [w for w in meta.get("what_ran", []) if not w.startswith("tools/mutrun.py")]
     wr.append("tools/mutrun.py %s patch.diff --tier %s %s" % (sid, tier, prop if owner_only else "all"))
@@ -48,8 +50,37 @@ def one(sid, tier, owner_only):
     return sid, meta, ""
 
 
+def write_summary():
+    """seeded/SUMMARY.md from every meta.json on disk."""
+    rows = []
+    for sid in sorted(os.listdir(SEEDED)):
+        mp = os.path.join(SEEDED, sid, "meta.json")
+        if not os.path.exists(mp):
+            continue
+        m = json.load(open(mp))
+        cr = m.get("checks_run")
+        ac = m.get("all_checks_run")
+        others = sorted(set((ac or {}).get("fired", [])) - {m["property"]})
+        rows.append("| %s | %s | %s | %s | %s |" % (
+            sid, m["property"],
+            ("yes" if m.get("caught_by_owner") else "NO") + (" (%s)" % cr.get("verif_commit", "?") if cr else " (not run)"),
+            (", ".join(others) if others else "-") + (" (%s)" % ac.get("verif_commit") if ac else " (no all-check run)"),
+            m.get("owner_note", "")))
+    with open(os.path.join(SEEDED, "SUMMARY.md"), "w") as f:
+        f.write("# Seeded changes and which checks report them\n\n"
+                "Each seed is a change to AE9RB/basic-lang made by a sub-agent that saw only the property text; it compiles, passes the 95 pinned\n"
+                "tests and breaks the property (demo.rs). Column 3: does the property's own quick check report it (harness commit of that\n"
+                "run). Column 4: which *other* quick checks reported it in the last run of all 20 (harness commit of that run; checks were\n"
+                "strengthened afterwards, so this column is a lower bound). Column 5: note where the owner check is silent by design.\n\n"
+                "| seed | property | own check fires | other checks that fired | note |\n|---|---|---|---|---|\n")
+        f.write("\n".join(rows) + "\n")
+
+
 def main():
     a = sys.argv[1:]
+    if a == ["--summary"]:
+        write_summary()
+        return 0
     j, tier, only, owner_only, ids = 4, "quick", None, False, []
     i = 0
     while i < len(a):
@@ -77,19 +108,7 @@ def main():
             cr = meta["checks_run"]
             print("%-45s owner=%s %-7s fired=%s" % (sid, meta["property"], "CAUGHT" if meta["caught_by_owner"] else ("elsewhere" if cr["fired"] else "MISSED"),
                                                     ",".join(cr["fired"])), flush=True)
-    # summary of everything on disk
-    rows = []
-    for sid in sorted(os.listdir(SEEDED)):
-        mp = os.path.join(SEEDED, sid, "meta.json")
-        if not os.path.exists(mp):
-            continue
-        m = json.load(open(mp))
-        cr = m.get("checks_run")
-        rows.append("| %s | %s | %s | %s | %s |" % (sid, m["property"], "yes" if m.get("caught_by_owner") else "NO",
-                                                 ", ".join(cr["fired"]) if cr else "(not run)", cr["tier"] if cr else ""))
-    with open(os.path.join(SEEDED, "SUMMARY.md"), "w") as f:
-        f.write("# Seeded changes and which checks report them\n\n| seed | property | caught by its own check | checks that fired | tier |\n|---|---|---|---|---|\n")
-        f.write("\n".join(rows) + "\n")
+    write_summary()
     return 0
 
 
